@@ -44,6 +44,19 @@ type propInfo struct {
 	values     []string // accepted explicit values (≤ maxValues)
 	initial    string   // the specification's initial value if the validator accepts it
 	templates  []string // accepted length templates (R6)
+	// length-valued properties only: the values made of keywords and pixel lengths alone
+	// (every keyword alternative the validator accepts, alone and next to a length)
+	kwValues []kwValue
+	anyIdent bool // the validator accepts an identifier that is no CSS keyword at all
+}
+
+// kwValue is a declared value that contains no relative part: a keyword, a pixel length, or a
+// keyword next to pixel lengths.
+type kwValue struct {
+	value   string
+	keyword string // "" for the pixel-only values
+	tmpl    string
+	decl    pr.CssProperty // what the validator makes of it
 }
 
 type check struct {
@@ -75,10 +88,11 @@ const (
 	posMarker
 	posPage
 	posMargin
+	posRootBefore
 	nPos
 )
 
-var posNames = [...]string{"root", "child", "grandchild", "before", "marker", "page", "margin-box"}
+var posNames = [...]string{"root", "child", "grandchild", "before", "marker", "page", "margin-box", "root-before"}
 
 // contexts: declarations present on every level besides the font-size ladder
 var ctxNames = []string{"plain", "styled", "abs"}
@@ -179,21 +193,26 @@ func (c *check) textCtx(eng string) *textCtx {
 
 // accepted reports whether `name: value` yields exactly one declaration of that very property
 // with a validated (non pending, non keyword) value.
-func accepted(p *propInfo, value string) (ok bool) {
+func accepted(p *propInfo, value string) bool { return validated(p, value) != nil }
+
+// validated returns the validated value of `name: value` (nil when it is not accepted as one
+// declaration of that very property).
+func validated(p *propInfo, value string) (v pr.CssProperty) {
 	defer func() {
 		if recover() != nil {
-			ok = false
+			v = nil
 		}
 	}()
 	decls := validation.PreprocessDeclarations("", pa.ParseBlocksContentsString(p.name+":"+value))
 	if len(decls) != 1 || decls[0].Name != p.key || decls[0].Shortand != 0 {
-		return false
+		return nil
 	}
 	switch decls[0].Value.(type) {
 	case pr.RawTokens, pr.DefaultValue:
-		return false
+		return nil
 	}
-	return decls[0].Value != nil
+	v, _ = decls[0].Value.(pr.CssProperty)
+	return v
 }
 
 func keywordDeclarable(p *propInfo) (ok bool) {
@@ -238,6 +257,7 @@ func (c *check) search(p *propInfo) {
 			p.templates = append(p.templates, t)
 		}
 	}
+	c.searchKeywords(p)
 }
 
 // inherited is the reference's inherited predicate: the hand-written lists, the
